@@ -1723,6 +1723,15 @@ func main() {
 		k1, k2 := trans[i%len(trans)], trans[(i/len(trans))%len(trans)]
 		reusedCase(o, r, 1+r.Intn(2), k1, k2, biomeClasses[r.Intn(len(biomeClasses))], biomeClasses[(i*5)%len(biomeClasses)])
 	}
+	// ONE destination read twice (same palette width, other states), then SetBlock with states of the first document
+	bands := [][2]int{{16, 32}, {32, 64}, {64, 128}, {128, 256}}
+	for i := 0; i < o.N(16, 4); i++ {
+		rereadThenSetCase(o, r, bands[i%4][0], bands[i%4][1])
+	}
+	// palettes whose entries fell out of use before they grew past a width boundary, through the save form
+	for i := 0; i < o.N(20, 3); i++ {
+		nonMonotoneSaveCase(o, r, i)
+	}
 	// bodies written by the independent reference writer
 	for i := 0; i < o.N(40, 6); i++ {
 		refReadCase(o, r)
